@@ -133,6 +133,7 @@ def c04(tier):
         combos += [(0, 7, 1, 1), (0, 4, 2, 0), (1, 0, 2, 0), (1, 0, 1, 0), (0, 12, 1, 0)]
     jobs = [Job("h_c04::update_read", c, dict(S2), budget_s=3000, validate=30) for c in combos]
     jobs.append(Job("h_c12::update_in_conflict", (6 if tier == "quick" else 10,), dict(S2), budget_s=3000, validate=30))
+    jobs.append(Job("h_c04::resubmit_in_conflict", (), dict(S2), budget_s=3000, validate=10))
     return dict(jobs=jobs,
                 bounds={"combos [variant, element orders, prior documents, commit after each prior document]": [list(c) for c in combos],
                         "variant 0": "element order of items♭ x membership of a second flattened array (objects move between arrays)",
